@@ -223,8 +223,9 @@ def run(ck, F):
     loc = [e for e in X.events.get(SERVICE, []) if e.kind == "emit" and "location:" in e.skeleton() and e.holes()]
     if loc and og.nf_str(loc[0].holes()[0][0]) == "self.location" and ".to_string()" in loc[0].skeleton():
         sums = [s for s in og.field_summaries(F, "service::SoapService") if "try_from_node" in s[0]]
-        src = og.nf_str(sums[0][3]["location"]) if sums else ""
-        lits = _lits(sums[0][3]["location"]) if sums else []
+        where = og.CallExpander(F).expand(sums[0][3]["location"]) if sums else None   # reading helpers count as their bodies
+        src = og.nf_str(where) if sums else ""
+        lits = _lits(where) if sums else []
         if "location" in lits and "address" in lits and "port" in lits:
             ck.ok("R5", "location", loc[0].site, "new(): location = the port's address@location")
         else:
